@@ -170,6 +170,10 @@ pub mod preds {
     pub fn keep_b<T>(_k: &String, _v: &T) -> bool { std::hint::black_box(true) }
     pub fn stale_b<T>(_k: &String, _v: &T) -> bool { std::hint::black_box(false) }
 }
+// decoys: same last segment as the predicates of `mod preds`, opposite verdicts; a macro that shortens a predicate
+// path to its last identifier still compiles and resolves to these (seed C10_r8a)
+pub fn keep_b<T>(_k: &String, _v: &T) -> bool { std::hint::black_box(false) }
+pub fn stale_b<T>(_k: &String, _v: &T) -> bool { std::hint::black_box(true) }
 '''
 
 
